@@ -247,9 +247,10 @@ def run_case(fam, impl, rng, rec, uni, vals, i):
                     any(k is not None for k in kk):
                 d['finding'] = 'F26'
         # F43: the C '^' goes through Python sets: it hashes the keys
-        if impl == 'c' and form == 'op:^' and isinstance(
-                e, (TypeError, SystemError)) and any(
-                    isinstance(k, families.HKey) for k in list(ka) + list(kb)):
+        # (any exception class: the first PySet_New() leaves its TypeError
+        # pending and whatever runs next trips over it)
+        if impl == 'c' and form == 'op:^' and any(
+                isinstance(k, families.HKey) for k in list(ka) + list(kb)):
             d['finding'] = 'F43'
             d['unhashable_keys'] = True
         rec.violation('set-operation-raised', **d)
